@@ -510,6 +510,7 @@ type SpecDB struct {
 	UFuns     map[string]*UFun
 	Ghosts    map[string]string // name -> sort text
 	FieldInvs []*FieldInv
+	GlobalInvs []*FieldInv // invariants of package-level variables (checked in the package initializer)
 	NewInvs   []*FieldInv // facts about freshly allocated (zero) values of library types
 	Axioms    []*Clause
 	// statistics for the evidence
@@ -662,6 +663,14 @@ func (db *SpecDB) loadFile(path string, lib bool) error {
 				return fail(err)
 			}
 			db.NewInvs = append(db.NewInvs, &FieldInv{Type: tn, E: e, Text: txt})
+			cur = nil
+		case "globalinv":
+			gn, txt := splitWord(rest)
+			e, err := parseSpecExpr(txt)
+			if err != nil {
+				return fail(err)
+			}
+			db.GlobalInvs = append(db.GlobalInvs, &FieldInv{Type: "", Field: gn, E: e, Text: txt})
 			cur = nil
 		case "fieldinv":
 			tf, txt := splitWord(rest)
